@@ -6,7 +6,7 @@ package jsonrpc
 // C16: size filter of the client. rpc observes the call through api.Internal.SubmitWithOptions
 // (the function value go-jsonrpc fills in); everything behind it is the transport.
 //@ func (api *API) SubmitWithOptions(ctx, inputBlobs, gasPrice, _, options) (ids, err)
-//@   property C16
+//@   property C16 C06 C07
 //@   nopanic
 //@   requires [wiring] api.Logger != nil && api.MaxBlobSize < 9223372036854775808
 //@   observe rpc := call SubmitWithOptions
